@@ -53,8 +53,8 @@ Section FlatIsTree.
   Context {X V S : Type}.
   Variable evalx : X -> S -> res (V * S).
   Variable apply_bin : binop -> V -> V -> S -> res (V * S).
-  Variable apply_un : unop -> V -> res V.
-  Variable truthy : V -> bool.
+  Variable apply_un : unop -> V -> S -> res V.
+  Variable truthy : V -> S -> bool.
   Notation flat := (flat_ops evalx apply_bin apply_un truthy).
   Notation tev := (teval evalx apply_bin apply_un truthy).
   Notation iop := (interp_op_x evalx apply_bin apply_un truthy).
@@ -63,12 +63,12 @@ Section FlatIsTree.
     flat obj (i0 :: i1 :: rest) st =
       if aprec (ikey i0) >=? aprec (ikey i1) then
         rbind (iop obj i0 st) (fun '(r, st1) => flat r (i1 :: rest) st1)
-      else if alazy (ikey i0) && negb (Bool.eqb (truthy obj) (key_is_and (ikey i0))) then Ok (obj, st)
+      else if alazy (ikey i0) && negb (Bool.eqb (truthy obj st) (key_is_and (ikey i0))) then Ok (obj, st)
       else match i0 with
            | IUn u => rbind (flat obj (i1 :: rest) st) (fun '(r, st1) => lift_un apply_un u r st1)
            | IBin o x =>
                rbind (evalx x st) (fun '(r0, st1) =>
-               rbind (flat r0 (i1 :: rest) st1) (fun '(n, st2) => interp_op_v apply_bin truthy obj o n st2))
+               rbind (flat r0 (i1 :: rest) st1) (fun '(n, st2) => interp_op_v apply_bin truthy obj o n st st2))
            end.
   Proof. reflexivity. Qed.
 
@@ -96,14 +96,16 @@ Section FlatIsTree.
              rewrite flat_cons2, Hp. rewrite <- IH. cbn [teval ikey]. rewrite alazy_spec.
              destruct o; cbn [key_is_and binop_eqb andb negb];
                try (rewrite rbind_assoc; apply rbind_ext; intros [r0 st2]; reflexivity).
-             ++ (* And *) destruct (truthy a) eqn:Ht; cbn [Bool.eqb negb]; [|reflexivity].
-                apply rbind_ext. intros [r0 st2].
-                etransitivity; [|apply rbind_ret_pair]. apply rbind_ext. intros [n st3].
-                unfold interp_op_v. rewrite Ht. reflexivity.
-             ++ (* Or *) destruct (truthy a) eqn:Ht; cbn [Bool.eqb negb]; [reflexivity|].
-                apply rbind_ext. intros [r0 st2].
-                etransitivity; [|apply rbind_ret_pair]. apply rbind_ext. intros [n st3].
-                unfold interp_op_v. rewrite Ht. reflexivity.
+             ++ (* And *) destruct (truthy a st1) eqn:Ht; cbn [Bool.eqb negb]; [|reflexivity].
+                rewrite rbind_assoc. apply rbind_ext. intros [r0 st2].
+                apply rbind_ext. intros [n st3].
+                unfold interp_op_v, recheck. destruct (Bool.eqb (truthy a st3) (truthy a st1)) eqn:E; [|reflexivity].
+                apply eqb_prop in E. rewrite E, Ht. reflexivity.
+             ++ (* Or *) destruct (truthy a st1) eqn:Ht; cbn [Bool.eqb negb]; [reflexivity|].
+                rewrite rbind_assoc. apply rbind_ext. intros [r0 st2].
+                apply rbind_ext. intros [n st3].
+                unfold interp_op_v, recheck. destruct (Bool.eqb (truthy a st3) (truthy a st1)) eqn:E; [|reflexivity].
+                apply eqb_prop in E. rewrite E, Ht. reflexivity.
           -- cbn [teval]. rewrite <- IH, rbind_assoc. apply rbind_ext. intros [v st1].
              rewrite flat_cons2, Hp. cbn [ikey]. rewrite alazy_spec. reflexivity.
   Qed.
@@ -262,8 +264,8 @@ Section Agree.
   Context {X V S : Type}.
   Variable evalx : X -> S -> res (V * S).
   Variable apply_bin : binop -> V -> V -> S -> res (V * S).
-  Variable apply_un : unop -> V -> res V.
-  Variable truthy : V -> bool.
+  Variable apply_un : unop -> V -> S -> res V.
+  Variable truthy : V -> S -> bool.
 
   Theorem ops_agree : forall (ops : list (item X)) (obj : V) (st : S),
     ops_safe ops = true ->
